@@ -116,10 +116,18 @@ def temporal_grid(acc):
     c01.temporal_grid(acc, run=run_case, prop="C02")
 
 
+def width_sweep(acc, enc, n, seed):
+    c01.width_sweep(acc, enc, n, seed, run=run_case, prop="C02")
+
+
 def shards(tier, seed):
     n = 300 if tier == "quick" else 9000
-    return [("random_cases", dict(enc=ENCODERS[j % 4], n=n, seed=seed * 1000 + j))
-            for j in range(16)] + [("temporal_grid", {})]
+    out = [("random_cases", dict(enc=ENCODERS[j % 4], n=n, seed=seed * 1000 + j))
+           for j in range(16)] + [("temporal_grid", {})]
+    for j in range(8):
+        out.append(("width_sweep", dict(enc=ENCODERS[j % 4], seed=seed * 1000 + 500 + j,
+                                        n=25 if tier == "quick" else 800)))
+    return out
 
 
 def replay(case):
